@@ -48,7 +48,8 @@ def make_records(field, value):
         r1["usyn"] = ["http://v1/", value]
     elif field == "pattern":
         r1["pattern"] = value
-    recs = [mrec(r1["prefix"], r1["uri_prefix"], r1["psyn"], r1["usyn"], r1["pattern"]), mrec("p2", "http://u2/")]
+    # plain records sort both before and after the perturbed one, whatever its prefix
+    recs = [mrec(r1["prefix"], r1["uri_prefix"], r1["psyn"], r1["usyn"], r1["pattern"]), mrec("p2", "http://u2/"), mrec("~z", "http://u3/"), mrec("!0", "http://u0/")]
     return recs
 
 
@@ -157,8 +158,14 @@ def check(writer, field, value, ctx=None, mode=None):
                 kind = "synonyms-lost-or-wrong" if inc and {k: got.get(k) for k in conv.bimap} == dict(conv.bimap) else "canonical-prefix-map-differs"
                 fails.append((f"shacl/{kind}/{field}", f"{w}: read back {got}, expected {want}"))
             pm = dict(back.pattern_map)
-            if {k: v for k, v in pm.items() if k in conv.pattern_map} != dict(conv.pattern_map):
-                fails.append((f"shacl/patterns-differ/{field}", f"{w}: read back {pm}, expected {dict(conv.pattern_map)}"))
+            want_pm = {}
+            for r in conv.records:
+                if r.pattern:
+                    for p_ in [r.prefix] + (list(r.prefix_synonyms) if inc else []):
+                        want_pm[p_] = r.pattern
+            if pm != want_pm:
+                kind = "pattern-on-a-record-that-has-none" if set(pm) - set(want_pm) else "patterns-differ"
+                fails.append((f"shacl/{kind}/{field}", f"{w}: read back {pm}, expected {want_pm}"))
     elif writer == "tsv":
         try:
             curies.write_tsv(conv, path)
